@@ -8,6 +8,7 @@ import (
 	"fmt"
 	"hash/fnv"
 	"os"
+	"reflect"
 	"sort"
 	"strings"
 	"sync"
@@ -144,10 +145,15 @@ func SaveReplay(property string, c any, err error) {
 		return
 	}
 	cb, _ := json.Marshal(c)
-	var gb bytes.Buffer
+	// JSON is exact unless the case holds invalid UTF-8 (then gob is); gob in turn drops pointers to
+	// zero values (an empty but present header), so it is only added when JSON does not round-trip.
 	gobStr := ""
-	if err := gob.NewEncoder(&gb).Encode(c); err == nil {
-		gobStr = base64.StdEncoding.EncodeToString(gb.Bytes())
+	back := reflect.New(reflect.TypeOf(c))
+	if json.Unmarshal(cb, back.Interface()) != nil || !reflect.DeepEqual(back.Elem().Interface(), c) {
+		var gb bytes.Buffer
+		if err := gob.NewEncoder(&gb).Encode(c); err == nil {
+			gobStr = base64.StdEncoding.EncodeToString(gb.Bytes())
+		}
 	}
 	clause := "unknown"
 	if v, ok := err.(*Violation); ok {
